@@ -131,6 +131,21 @@ structure Inv (T : Tables) (env : CEnv) (d : Nat) (idx : List Nat) (s : DState) 
   m395 : env.scope.has T.fidNSig 0 = true → ∀ a, T.special.df395 = some a →
       ∃ m : Nat, m < 2 ^ 32 ∧ s.attrs.get? (a, []) = some (.int m)
         ∧ s.attrs.get? (T.fidNSig, []) = some (.int (popcount m 32))
+  m396 : env.maps = true → ∀ a4 a5 a6, T.special.df394 = some a4 → T.special.df395 = some a5 → T.special.df396 = some a6 →
+      ∃ m4 m5 d : Nat, s.attrs.get? (a4, []) = some (.int m4) ∧ s.attrs.get? (a5, []) = some (.int m5)
+        ∧ s.attrs.get? (a6, []) = some (.int d)
+        ∧ s.attrs.get? (T.fidNSat, []) = some (.int (popcount m4 64))
+        ∧ s.attrs.get? (T.fidNSig, []) = some (.int (popcount m5 32))
+        ∧ s.attrs.get? (T.fidNCell, []) = some (.int (popcount d (popcount m4 64 * popcount m5 32)))
+
+/-- after the cell mask: the three counts are the popcounts of the three stored masks -/
+def M396 (T : Tables) (env : CEnv) (s : DState) : Prop :=
+  env.maps = true → ∀ a4 a5 a6, T.special.df394 = some a4 → T.special.df395 = some a5 → T.special.df396 = some a6 →
+    ∃ m4 m5 d : Nat, s.attrs.get? (a4, []) = some (.int m4) ∧ s.attrs.get? (a5, []) = some (.int m5)
+      ∧ s.attrs.get? (a6, []) = some (.int d)
+      ∧ s.attrs.get? (T.fidNSat, []) = some (.int (popcount m4 64))
+      ∧ s.attrs.get? (T.fidNSig, []) = some (.int (popcount m5 32))
+      ∧ s.attrs.get? (T.fidNCell, []) = some (.int (popcount d (popcount m4 64 * popcount m5 32)))
 
 def M394 (T : Tables) (env : CEnv) (s : DState) : Prop :=
   env.scope.has T.fidNSat 0 = true → ∀ a, T.special.df394 = some a →
@@ -150,13 +165,13 @@ theorem inv_set_core (T : Tables) (env : CEnv) (d : Nat) (idx : List Nat) (s s' 
     (h1 : ∀ f, T.field? fid = some f → isCounterTy f = true → ∃ n : Nat, v = .int n)
     (h2 : ∀ f, T.field? fid = some f → f.ty = .str → ∃ t, v = .text t)
     (ha : s'.attrs = s.attrs.set (fid, idx.take dp) v) (hsm : s'.satmap = s.satmap) (hcm : s'.cellmap = s.cellmap)
-    (hm394 : M394 T (env.add fid dp) s') (hm395 : M395 T (env.add fid dp) s') :
+    (hm394 : M394 T (env.add fid dp) s') (hm395 : M395 T (env.add fid dp) s') (hm396 : M396 T (env.add fid dp) s') :
     Inv T (env.add fid dp) d idx s' := by
   have hne : ∀ x, T.nf ≤ x → ∀ l, ((fid, idx.take dp) : AttrKey) ≠ (x, l) := by
     intro x hx l he; injection he with he _; omega
   have keep : ∀ x, T.nf ≤ x → ∀ l, s'.attrs.get? (x, l) = s.attrs.get? (x, l) := by
     intro x hx l; rw [ha, Attrs.get?_set_ne _ _ _ _ (hne x hx l)]
-  refine ⟨hinv.len, ?_, ?_, ?_, ?_, hm394, hm395⟩
+  refine ⟨hinv.len, ?_, ?_, ?_, ?_, hm394, hm395, hm396⟩
   · rw [ha]; exact typed_set T _ _ _ hinv.typed h1 h2 (fun h => by simp at h; omega)
   · intro f dp' hh
     simp only [CEnv.add, has_cons, Bool.or_eq_true, Bool.and_eq_true, beq_iff_eq] at hh
@@ -176,7 +191,7 @@ theorem inv_set_core (T : Tables) (env : CEnv) (d : Nat) (idx : List Nat) (s s' 
 theorem inv_set (T : Tables) (hy : Hyg T) (env : CEnv) (d : Nat) (idx : List Nat) (s s' : DState)
     (fid dp : Nat) (v : Val) (hinv : Inv T env d idx s)
     (hlt : fid < T.nf) (hdp : dp ≤ d)
-    (h394 : T.special.df394 ≠ some fid) (h395 : T.special.df395 ≠ some fid)
+    (h394 : T.special.df394 ≠ some fid) (h395 : T.special.df395 ≠ some fid) (h396 : T.special.df396 ≠ some fid)
     (h1 : ∀ f, T.field? fid = some f → isCounterTy f = true → ∃ n : Nat, v = .int n)
     (h2 : ∀ f, T.field? fid = some f → f.ty = .str → ∃ t, v = .text t)
     (ha : s'.attrs = s.attrs.set (fid, idx.take dp) v) (hsm : s'.satmap = s.satmap) (hcm : s'.cellmap = s.cellmap) :
@@ -185,7 +200,7 @@ theorem inv_set (T : Tables) (hy : Hyg T) (env : CEnv) (d : Nat) (idx : List Nat
     intro x hx l he; injection he with he _; omega
   have keep : ∀ x, T.nf ≤ x → ∀ l, s'.attrs.get? (x, l) = s.attrs.get? (x, l) := by
     intro x hx l; rw [ha, Attrs.get?_set_ne _ _ _ _ (hne x hx l)]
-  refine inv_set_core T env d idx s s' fid dp v hinv hlt hdp h1 h2 ha hsm hcm ?_ ?_
+  refine inv_set_core T env d idx s s' fid dp v hinv hlt hdp h1 h2 ha hsm hcm ?_ ?_ ?_
   · intro hh a hs
     have hfa : fid ≠ a := fun e => h394 (by rw [hs, e])
     simp only [CEnv.add, has_cons, Bool.or_eq_true, Bool.and_eq_true, beq_iff_eq] at hh
@@ -209,13 +224,26 @@ theorem inv_set (T : Tables) (hy : Hyg T) (env : CEnv) (d : Nat) (idx : List Nat
     rw [ha, Attrs.get?_set_ne _ _ _ _ (by intro e; injection e with e _; exact hfa e)]
     exact g1
 
+  · intro hm a4 a5 a6 e4 e5 e6
+    have hm' : env.maps = true := hm
+    obtain ⟨m4, m5, dd, g1, g2, g3, g4, g5, g6⟩ := hinv.m396 hm' a4 a5 a6 e4 e5 e6
+    have n4 : fid ≠ a4 := fun e => h394 (by rw [e4, e])
+    have n5 : fid ≠ a5 := fun e => h395 (by rw [e5, e])
+    have n6 : fid ≠ a6 := fun e => h396 (by rw [e6, e])
+    have kf : ∀ x, x ≠ fid → s'.attrs.get? (x, []) = s.attrs.get? (x, []) := by
+      intro x hx; rw [ha, Attrs.get?_set_ne _ _ _ _ (by intro e; injection e with e _; exact hx e.symm)]
+    exact ⟨m4, m5, dd, by rw [kf _ (Ne.symm n4)]; exact g1, by rw [kf _ (Ne.symm n5)]; exact g2,
+      by rw [kf _ (Ne.symm n6)]; exact g3,
+      by rw [keep _ (by simp [Tables.fidNSat])]; exact g4, by rw [keep _ (by simp [Tables.fidNSig])]; exact g5,
+      by rw [keep _ (by simp [Tables.fidNCell])]; exact g6⟩
+
 theorem inv_weaken (T : Tables) (e1 e2 : CEnv) (d : Nat) (idx : List Nat) (s : DState) (h : Inv T e1 d idx s)
     (hs : ∀ f dp, e2.scope.has f dp = true → e1.scope.has f dp = true)
     (hm : e2.maps = true → e1.maps = true) (ho : e2.outer = e1.outer) : Inv T e2 d idx s :=
   ⟨h.len, h.typed, fun f dp hh => h.scope f dp (hs f dp hh), fun hm2 => h.maps (hm hm2),
    fun i rest hi => ⟨(h.bound i rest hi).1, fun a b => (h.bound i rest hi).2.1 (hm a) (ho ▸ b),
      fun a b => (h.bound i rest hi).2.2 (hm a) (ho ▸ b)⟩,
-   fun hh => h.m394 (hs _ _ hh), fun hh => h.m395 (hs _ _ hh)⟩
+   fun hh => h.m394 (hs _ _ hh), fun hh => h.m395 (hs _ _ hh), fun hm2 => h.m396 (hm hm2)⟩
 
 /-- setting one of the harmonic-coefficient counters -/
 theorem inv_set_derived (T : Tables) (hy : Hyg T) (env : CEnv) (d : Nat) (idx : List Nat) (s s' : DState)
@@ -226,7 +254,7 @@ theorem inv_set_derived (T : Tables) (hy : Hyg T) (env : CEnv) (d : Nat) (idx : 
   have keep : ∀ k : AttrKey, k.1 ≠ x → s'.attrs.get? k = s.attrs.get? k := by
     intro k hk; rw [ha, Attrs.get?_set_ne _ _ _ _ (by intro e; apply hk; rw [← e])]
   have nofield : ∀ f, T.field? x ≠ some f := fun f hf => by have := hy.below x f hf; omega
-  refine ⟨hinv.len, ?_, ?_, ?_, ?_, ?_, ?_⟩
+  refine ⟨hinv.len, ?_, ?_, ?_, ?_, ?_, ?_, ?_⟩
   · rw [ha]
     exact typed_set T _ _ _ hinv.typed (fun f hf => absurd hf (nofield f)) (fun f hf => absurd hf (nofield f))
       (fun _ => ⟨i, rfl⟩)
@@ -264,6 +292,20 @@ theorem inv_set_derived (T : Tables) (hy : Hyg T) (env : CEnv) (d : Nat) (idx : 
       · exact hh
     obtain ⟨m, hm, g1, g2⟩ := hinv.m395 hh' a hs
     exact ⟨m, hm, by rw [keep _ (by simp; omega)]; exact g1, by rw [keep _ (by simp [Tables.fidNSig]; omega)]; exact g2⟩
+  · intro hm a4 a5 a6 e4 e5 e6
+    have hm' : env.maps = true := hm
+    obtain ⟨m4, m5, dd, g1, g2, g3, g4, g5, g6⟩ := hinv.m396 hm' a4 a5 a6 e4 e5 e6
+    obtain ⟨b4, f4, l4⟩ := hy.s394
+    obtain ⟨b5, f5, l5⟩ := hy.s395
+    obtain ⟨b6, f6, l6⟩ := hy.s396
+    rw [e4] at f4; injection f4 with f4; subst f4
+    rw [e5] at f5; injection f5 with f5; subst f5
+    rw [e6] at f6; injection f6 with f6; subst f6
+    exact ⟨m4, m5, dd, by rw [keep _ (by simp; omega)]; exact g1, by rw [keep _ (by simp; omega)]; exact g2,
+      by rw [keep _ (by simp; omega)]; exact g3,
+      by rw [keep _ (by simp [Tables.fidNSat]; omega)]; exact g4,
+      by rw [keep _ (by simp [Tables.fidNSig]; omega)]; exact g5,
+      by rw [keep _ (by simp [Tables.fidNCell]; omega)]; exact g6⟩
 
 
 /-! ### one field -/
@@ -408,7 +450,7 @@ theorem sound_plain (c : Ctx) (hy : Hyg c.T) (env : CEnv) (d fid : Nat) (idx : L
       rcases hst with ⟨hns, ha'⟩ | ⟨hs, t, ha'⟩
       · rw [if_neg hns]
         apply inv_set c.T hy env d idx s _ fid d (interp f f.width bits) hinv hlt (Nat.le_refl _)
-          (fun e => n1 e.symm) (fun e => n2 e.symm)
+          (fun e => n1 e.symm) (fun e => n2 e.symm) (fun e => n3 e.symm)
         · intro f' hf' hc; rw [hf] at hf'; injection hf' with hf'; subst hf'
           exact ⟨bits, interp_counter f _ _ hc⟩
         · intro f' hf' hc; rw [hf] at hf'; injection hf' with hf'; subst hf'
@@ -418,7 +460,7 @@ theorem sound_plain (c : Ctx) (hy : Hyg c.T) (env : CEnv) (d fid : Nat) (idx : L
         · rfl
       · rw [if_pos hs]
         apply inv_set c.T hy env d idx s _ fid 0 (.text t) hinv hlt (Nat.zero_le _)
-          (fun e => n1 e.symm) (fun e => n2 e.symm)
+          (fun e => n1 e.symm) (fun e => n2 e.symm) (fun e => n3 e.symm)
         · intro f' hf' hc; rw [hf] at hf'; injection hf' with hf'; subst hf'
           exact absurd hs (isCounter_not_str f hc)
         · intro _ _ _; exact ⟨t, rfl⟩
@@ -479,7 +521,7 @@ theorem sound_label (c : Ctx) (hy : Hyg c.T) (env : CEnv) (d fid : Nat) (idx : L
   rw [hdec]
   apply sound_ok
   · apply inv_set c.T hy env d idx s _ fid d (.text l) hinv (hy.below fid f hf) (Nat.le_refl _)
-      (fun e => n1 e.symm) (fun e => n2 e.symm)
+      (fun e => n1 e.symm) (fun e => n2 e.symm) (fun e => n3 e.symm)
     · intro f' hf' hc; rw [hf] at hf'; injection hf' with hf'; subst hf'
       rw [label_not_counter f hl] at hc; simp at hc
     · intro f' hf' hc; rw [hf] at hf'; injection hf' with hf'; subst hf'
@@ -576,7 +618,7 @@ theorem sound_df394 (c : Ctx) (hy : Hyg c.T) (env : CEnv) (fid : Nat) (idx : Lis
             Attrs.get?_set_ne _ _ _ _ (by intro e; injection e with e _; simp [Tables.fidNSig] at e; omega)]
           exact g2
       exact ⟨b2.len, b2.typed, b2.scope, fun hm' => by simp [CEnv.add, hm] at hm',
-        fun i rest hi => by rw [hidx] at hi; simp at hi, hOwn, hOther⟩
+        fun i rest hi => by rw [hidx] at hi; simp at hi, hOwn, hOther, fun hm' => by simp [CEnv.add, hm] at hm'⟩
     · intro h1; omega
 
 /-- the signal mask DF395 (top level, before the maps are built) -/
@@ -650,7 +692,7 @@ theorem sound_df395 (c : Ctx) (hy : Hyg c.T) (env : CEnv) (fid : Nat) (idx : Lis
             Attrs.get?_set_ne _ _ _ _ (by intro e; injection e with e _; simp [Tables.fidNSat] at e; omega)]
           exact g2
       exact ⟨b2.len, b2.typed, b2.scope, fun hm' => by simp [CEnv.add, hm] at hm',
-        fun i rest hi => by rw [hidx] at hi; simp at hi, hOther, hOwn⟩
+        fun i rest hi => by rw [hidx] at hi; simp at hi, hOther, hOwn, fun hm' => by simp [CEnv.add, hm] at hm'⟩
     · intro h1; omega
 
 
@@ -752,7 +794,7 @@ theorem sound_df396 (c : Ctx) (hy : Hyg c.T) (env : CEnv) (fid : Nat) (idx : Lis
         rw [Attrs.get?_set_ne _ _ _ _ (by intro e; injection e with e _; simp [Tables.fidNCell, Tables.fidNSig] at e), ha',
           Attrs.get?_set_ne _ _ _ _ (by intro e; injection e with e _; simp [Tables.fidNSig] at e; omega)]
         exact g52
-      refine ⟨b2.len, b2.typed, b2.scope, ?_, ?_, ?_, ?_⟩
+      refine ⟨b2.len, b2.typed, b2.scope, ?_, ?_, ?_, ?_, ?_⟩
       · intro _
         refine ⟨sm, cm, rfl, rfl, ?_, ?_⟩
         · simp only; rw [gNSat, hsl]
@@ -764,6 +806,12 @@ theorem sound_df396 (c : Ctx) (hy : Hyg c.T) (env : CEnv) (fid : Nat) (idx : Lis
       · intro _ a hs
         rw [e5] at hs; injection hs with hs; subst hs
         exact ⟨m5, hm5, gA5, gNSig⟩
+      · intro _ b4 b5 b6 f4 f5 f6
+        rw [e4] at f4; injection f4 with f4; subst f4
+        rw [e5] at f5; injection f5 with f5; subst f5
+        rw [← hsp] at f6; injection f6 with f6; subst f6
+        refine ⟨m4, m5, bits, gA4, gA5, gAf, gNSat, gNSig, ?_⟩
+        simp only [A]; rw [Attrs.get?_set_eq]
     · intro h1; omega
 
 
@@ -792,7 +840,7 @@ theorem sound_idf038 (c : Ctx) (hy : Hyg c.T) (env : CEnv) (fid g : Nat) (idx : 
     -- invariant after the plain store
     have inv1 : Inv c.T (env.add fid 1) 1 idx { s with off := s.off + f.width, attrs := a' } := by
       apply inv_set c.T hy env 1 idx s _ fid 1 (.int bits) hinv hlt (Nat.le_refl _)
-        (fun e => n394 e.symm) (fun e => n395 e.symm)
+        (fun e => n394 e.symm) (fun e => n395 e.symm) (fun e => n396 e.symm)
       · intro _ _ _; exact ⟨bits, rfl⟩
       · intro f' hf' hs'; rw [hf] at hf'; injection hf' with hf'; subst hf'
         exact absurd hs' (isCounter_not_str f hc)
@@ -1197,7 +1245,7 @@ theorem inv_enter (T : Tables) (env : CEnv) (d : Nat) (idx : List Nat) (s : DSta
     (hbS : d = 0 → env.maps = true → o' = some T.fidNSat → ∃ sm, s.satmap = some sm ∧ i ≤ sm.length)
     (hbC : d = 0 → env.maps = true → o' = some T.fidNCell → ∃ cm, s.cellmap = some cm ∧ i ≤ cm.length) :
     Inv T { env with outer := o' } (d + 1) (idx ++ [i]) s := by
-  refine ⟨by simp [hinv.len], hinv.typed, ?_, hinv.maps, ?_, hinv.m394, hinv.m395⟩
+  refine ⟨by simp [hinv.len], hinv.typed, ?_, hinv.maps, ?_, hinv.m394, hinv.m395, hinv.m396⟩
   · intro f dp hh
     obtain ⟨h1, h2⟩ := hinv.scope f dp hh
     refine ⟨by omega, ?_⟩
@@ -1225,7 +1273,7 @@ theorem inv_leave (T : Tables) (env envB' : CEnv) (d : Nat) (idx : List Nat) (s1
     (hmp : envB'.maps = env.maps)
     (hsm : s'.satmap = s1.satmap) (hcm : s'.cellmap = s1.cellmap) : Inv T env d idx s' := by
   refine ⟨hpre.len, hin.typed, ?_, fun hm => hin.maps (by rw [hmp]; exact hm), ?_,
-    fun hh => hin.m394 (hsc _ _ hh), fun hh => hin.m395 (hsc _ _ hh)⟩
+    fun hh => hin.m394 (hsc _ _ hh), fun hh => hin.m395 (hsc _ _ hh), fun hm => hin.m396 (by rw [hmp]; exact hm)⟩
   · intro f dp hh
     obtain ⟨h1, _⟩ := hpre.scope f dp hh
     obtain ⟨_, h2⟩ := hin.scope f dp (hsc f dp hh)
@@ -1371,7 +1419,7 @@ end
 
 theorem inv_init (T : Tables) : Inv T ⟨[], false, none⟩ 0 [] DState.init :=
   ⟨rfl, typed_nil T, fun f dp h => by simp [Scope.has] at h, fun h => by simp at h,
-   fun i rest h => by simp at h, fun h => by simp [Scope.has] at h, fun h => by simp [Scope.has] at h⟩
+   fun i rest h => by simp at h, fun h => by simp [Scope.has] at h, fun h => by simp [Scope.has] at h, fun h => by simp at h⟩
 
 /-- **Soundness of `ckDef`.**  For tables passing the hygiene check and a definition the checker
     accepts for identity `id`: whatever the payload and the label option, decoding can fail in one
@@ -1384,5 +1432,11 @@ theorem ck_sound (T : Tables) (hy : Hyg T) (id : Ident) (label : Nat) (p : Paylo
   | none => rw [hc] at h; simp at h
   | some env' =>
     exact (ckItems_sound ⟨T, p, id, label⟩ hy d _ env' 0 [] DState.init hc (inv_init T)).1 e he
+
+/-- the final invariant of a successful decode of a checked definition -/
+theorem ck_final_inv (T : Tables) (hy : Hyg T) (id : Ident) (label : Nat) (p : Payload) (d : List Item)
+    (env' : CEnv) (hck : ckItems T id 0 d ⟨[], false, none⟩ = some env') (s : DState)
+    (h : decItems ⟨T, p, id, label⟩ d [] DState.init = .ok s) : Inv T env' 0 [] s :=
+  ((ckItems_sound ⟨T, p, id, label⟩ hy d _ env' 0 [] DState.init hck (inv_init T)).2 s h).1
 
 end Rtcm
